@@ -52,6 +52,8 @@ ALLOWED_EXCLUDED_CLASSES = {"ProgramNode", "BlankNode", "CommentNode", "Injected
 ALLOWED_EXCLUDED_NAMES = {"Stop"}
 EXCLUDED_VISITORS = {"visit_BlankNode", "visit_CommentNode", "visit_ProgramNode"}
 MAX_PATHS = 20000
+# local names of _get_record_runlog_items, discovered by role at run time (never assumed): see _discover_names
+NM = {"item": "item", "items": "items", "state": "state", "inx": "inx"}
 
 
 # ------------------------------------------------------------------------------------------------ three-valued evaluation
@@ -94,9 +96,9 @@ def _eval(expr: ast.AST, env: _Env) -> bool | None:
     if isinstance(expr, ast.Compare) and len(expr.ops) == 1:
         left, op, right = expr.left, expr.ops[0], expr.comparators[0]
         subj = norm(left)
-        if subj == "state.state_name":
+        if subj == f"{NM['state']}.state_name":
             cur, enum = env.v, "RuntimeRecordStateEnum"
-        elif subj == "item.state":
+        elif subj == f"{NM['item']}.state":
             cur, enum = env.item_state, "RunLogItemState"
             if cur is None:
                 return None
@@ -148,12 +150,12 @@ def _enumerate_loop_paths(g, loop_node, v: str):
                 t = a.targets[0]
                 if isinstance(t, ast.Name):
                     env.locals[t.id] = _eval(a.value, env)
-                    if t.id == "item":
+                    if t.id == NM["item"]:
                         events.append(("item-rebound", norm(a.value), n))
                         env.item_state = None
                         if isinstance(a.value, ast.Call) and call_attr(a.value) == "RunLogItem":
                             env.item_state = "Unknown"   # RunLogItem() default - checked separately
-                elif isinstance(t, ast.Attribute) and isinstance(t.value, ast.Name) and t.value.id == "item":
+                elif isinstance(t, ast.Attribute) and isinstance(t.value, ast.Name) and t.value.id == NM["item"]:
                     events.append(("set", (t.attr, a.value), n))
                     if t.attr == "state":
                         env.item_state = _member(a.value, "RunLogItemState")
@@ -161,14 +163,14 @@ def _enumerate_loop_paths(g, loop_node, v: str):
                 t = a.target
                 if isinstance(t, ast.Name):
                     env.locals[t.id] = _eval(a.value, env) if isinstance(a, ast.AnnAssign) and a.value is not None else None
-                    if t.id == "item":
+                    if t.id == NM["item"]:
                         env.item_state = None
-                elif isinstance(t, ast.Attribute) and isinstance(t.value, ast.Name) and t.value.id == "item":
+                elif isinstance(t, ast.Attribute) and isinstance(t.value, ast.Name) and t.value.id == NM["item"]:
                     events.append(("set", (t.attr, a.value), n))
             for c in n.calls():
-                if call_attr(c) == "append" and norm(c.func) == "items.append" and c.args and norm(c.args[0]) == "item":
+                if call_attr(c) == "append" and norm(c.func) == f"{NM['items']}.append" and c.args and norm(c.args[0]) == NM["item"]:
                     events.append(("append", None, n))
-                elif any(norm(x) == "item" for x in c.args) and call_attr(c) != "append":
+                elif any(norm(x) == NM["item"] for x in c.args) and call_attr(c) != "append":
                     events.append(("item-passed", norm(c.func), n))
         succ = g.succ[nid]
         if n.kind == "test":
@@ -291,9 +293,11 @@ def run(ctx) -> None:
         raise AnchorError("no append to RuntimeRecord.states found")
 
     g = cfg_of(gri)
-    loops = [n for n in g.nodes if n.kind == "for" and "invocation_states" in norm(n.ast.iter) and "state" in norm(n.ast.target)]
+    _discover_names(gri, g)
+    loops = [n for n in g.nodes if n.kind == "for" and isinstance(n.ast.target, ast.Tuple) and len(n.ast.target.elts) == 2
+             and norm(n.ast.target.elts[1]) == NM["state"] and norm(n.ast.target.elts[0]) == NM["inx"]]
     if len(loops) != 1:
-        raise AnchorError("state loop `for inx, state in enumerate(invocation_states)` not found in _get_record_runlog_items")
+        raise AnchorError("state loop `for <index>, <state> in enumerate(<invocation states>)` not found in _get_record_runlog_items")
     loop = loops[0]
     lsd = local_single_defs(gri)
     # item.start / item.end writers
@@ -301,7 +305,7 @@ def run(ctx) -> None:
         if n.kind != "stmt" or n.ast is None:
             continue
         for t, v, st in assigned_attrs(n.ast):
-            if not (isinstance(t.value, ast.Name) and t.value.id == "item"):
+            if not (isinstance(t.value, ast.Name) and t.value.id == NM["item"]):
                 continue
             if t.attr == "start":
                 inst = f"_get_record_runlog_items: {norm(st)}"
@@ -309,9 +313,9 @@ def run(ctx) -> None:
                 first = False
                 for e, pol in conds:
                     ee = lsd.get(e.id, e) if isinstance(e, ast.Name) else e
-                    if pol and norm(ee) in ("inx == 0", "0 == inx"):
+                    if pol and norm(ee) in (f"{NM['inx']} == 0", f"0 == {NM['inx']}"):
                         first = True
-                if norm(v) != "state.state_time":
+                if norm(v) != f"{NM['state']}.state_time":
                     ctx.fail("R15a", gri, st, inst, "item.start is not the state's time")
                 elif not first:
                     ctx.fail("R15a", gri, st, inst, "item.start is assigned outside the first-state branch (inx == 0): a later "
@@ -320,12 +324,12 @@ def run(ctx) -> None:
                     ctx.ok("R15a", inst)
             elif t.attr == "end":
                 inst = f"_get_record_runlog_items: {norm(st)}"
-                if norm(v) != "state.state_time":
+                if norm(v) != f"{NM['state']}.state_time":
                     ctx.fail("R15a", gri, st, inst, "item.end is not the state's time")
                 else:
                     ctx.ok("R15a", inst)
     for fld in ("start", "end"):
-        if not any(t.attr == fld and isinstance(t.value, ast.Name) and t.value.id == "item"
+        if not any(t.attr == fld and isinstance(t.value, ast.Name) and t.value.id == NM["item"]
                    for n in g.nodes if n.kind == "stmt" and n.ast is not None for t, v, st in assigned_attrs(n.ast)):
             ctx.fail("R15a", gri, gri.node, f"_get_record_runlog_items: item.{fld} is assigned from a state time",
                      f"item.{fld} is never assigned: items carry the default {fld}")
@@ -385,12 +389,12 @@ def run(ctx) -> None:
             ctx.ok("R15b", inst)
     # item.id
     idw = [(n, v, st) for n in g.nodes if n.kind == "stmt" and n.ast is not None for t, v, st in assigned_attrs(n.ast)
-           if t.attr == "id" and isinstance(t.value, ast.Name) and t.value.id == "item"]
+           if t.attr == "id" and isinstance(t.value, ast.Name) and t.value.id == NM["item"]]
     if not idw:
         raise AnchorError("item.id assignment not found")
     for n, v, st in idw:
         inst = f"_get_record_runlog_items: {norm(st)}"
-        if norm(v) == "state.instance_id":
+        if norm(v) == f"{NM['state']}.instance_id":
             ctx.ok("R15b", inst)
         else:
             ctx.fail("R15b", gri, st, inst, "item id is not the invocation's instance id: ids may collide or not identify the "
@@ -473,14 +477,15 @@ def run(ctx) -> None:
     if len(rse) < 8:
         raise AnchorError("RuntimeRecordStateEnum members not extracted")
     # the conclusive list
-    cdef = lsd.get("is_conclusive_state")
+    cdef = next((v for k, v in lsd.items() if isinstance(v, ast.Compare) and len(v.ops) == 1 and isinstance(v.ops[0], ast.In)
+                 and norm(v.left) == f"{NM['state']}.state_name"), None)
     if cdef is None:
-        raise AnchorError("is_conclusive_state single definition not found")
+        raise AnchorError("the `<conclusive> = <state>.state_name in [...]` definition was not found")
     concl = set()
     if isinstance(cdef, ast.Compare) and isinstance(cdef.comparators[0], (ast.List, ast.Tuple, ast.Set)):
         concl = {_member(e, "RuntimeRecordStateEnum") for e in cdef.comparators[0].elts}
     inst = "is_conclusive_state list = {Completed, Failed, Cancelled}"
-    if concl == CONCLUSIVE and norm(cdef.left) == "state.state_name":
+    if concl == CONCLUSIVE and norm(cdef.left) == f"{NM['state']}.state_name":
         ctx.ok("R15c", inst)
     else:
         ctx.fail("R15c", gri, cdef, inst, f"conclusive states are {sorted(str(c) for c in concl)}: completed, failed and "
@@ -585,7 +590,8 @@ def run(ctx) -> None:
     comps = [n for n in walk_no_nested(rf.node) if isinstance(n, ast.ListComp)]
     inst = "records_filtered: filters NullNode records only"
     flt = [norm(i) for c in comps for gen in c.generators for i in gen.ifs]
-    if flt == ["r.node_class_name != 'NullNode'"]:
+    want = [f"{norm(gen.target)}.node_class_name != 'NullNode'" for c in comps for gen in c.generators]
+    if len(flt) == 1 and flt == want[:1]:
         ctx.ok("R15d", inst)
     else:
         ctx.fail("R15d", rf, rf.node, inst, f"record filter is {flt}: instructions other than the allowed exclusions may vanish "
@@ -764,3 +770,28 @@ def _ancestors_of(fn, node):
     while cur is not None:
         yield cur
         cur = pm.get(id(cur))
+
+
+def _discover_names(gri, g) -> None:
+    """Fill NM by role: item = the local assigned RunLogItem(); items = the list local the function returns; state/inx = the
+    targets of the innermost loop that contains the RunLogItem() assignment."""
+    item = None
+    for n in ast.walk(gri.node):
+        if isinstance(n, ast.Assign) and len(n.targets) == 1 and isinstance(n.targets[0], ast.Name) and isinstance(n.value, ast.Call) \
+                and call_attr(n.value) == "RunLogItem":
+            item = n
+    if item is None:
+        raise AnchorError("_get_record_runlog_items: `<item> = RunLogItem()` not found")
+    NM["item"] = item.targets[0].id
+    rets = [n.value.id for n in ast.walk(gri.node) if isinstance(n, ast.Return) and isinstance(n.value, ast.Name)]
+    if not rets:
+        raise AnchorError("_get_record_runlog_items: returned list local not found")
+    NM["items"] = rets[-1]
+    inner = None
+    for lp in ast.walk(gri.node):
+        if isinstance(lp, ast.For) and any(x is item for x in ast.walk(lp)):
+            if inner is None or any(x is lp for x in ast.walk(inner)):
+                inner = lp
+    if inner is None or not (isinstance(inner.target, ast.Tuple) and len(inner.target.elts) == 2):
+        raise AnchorError("_get_record_runlog_items: state loop around the RunLogItem() assignment not found")
+    NM["inx"], NM["state"] = norm(inner.target.elts[0]), norm(inner.target.elts[1])
